@@ -516,7 +516,12 @@ class HistoryRun:
                 else:
                     # the call dialect is layered over the classes' own default dialect: the matching document is
                     # the one the family itself writes (one more to_dict call in the history)
-                    _, _, doc = F.call_to_dict(fam, c, vals, di, mp)
+                    dgot, dgid, doc = F.call_to_dict(fam, c, vals, di, mp)
+                    if doc is None:          # the family cannot even write its own document: that call is the failure
+                        self.stats.append((c, "mto" if mp else "to", di))
+                        self.mismatch = {"index": idx, "op": [c, "mto" if mp else "to", di, vals], "observed": [dgot, dgid],
+                                         "expected": "a document, not an exception"}
+                        break
                     tops, touts = self.model["mto" if mp else "to"]
                     if self.spec.get("lazy") and has_kind(fam, c, "plain"):
                         tops.append(["define", CID["Plain"]])
